@@ -298,6 +298,16 @@ def handle (st : DState) (line : String) : DState × String :=
     | some s' => ({ st with rw := s' }, showRW s')
     | none => (st, "DISABLED")
   | ["rw", "state"] => (st, showRW st.rw)
+  | ["frame", bytes] =>
+    let s := parseNats bytes
+    match Framing.readCmd (s.length + 2) s with
+    | some (c, _) => (st, toString c.length)
+    | none => (st, "none")
+  | ["struct", what, toks] =>
+    -- the shape recognisers of `Structure` on a token stream (the harness sends what the real server wrote)
+    match Structure.parseToks (toks.splitOn ",") with
+    | none => (st, "unreadable")
+    | some t => (st, if (if what == "env" then Structure.isEnvelope t else Structure.isBody t) then "1" else "0")
   | ["flock", labels] =>
     -- replay a recorded trace of `_try_lock` successes (t<i>), `_unlock` calls (u<i>), expirations (x) and stale files (s)
     let ls := if labels == "-" then [] else labels.splitOn ","
